@@ -410,7 +410,9 @@ func runC05(seed int64, n int, dir string, tier string) *Report {
 	// the public identifier generator
 	seedTexts := []string{"", "auto", "node", "a", "pkg:npm/foo@1.0", "héllo wörld", "日本", "a/b c:d", "x_y", "\xff\xfe", "tab\tx", "-", ".", "A.b-9",
 		// reserved words in other spellings are ordinary seed text
-		"Node", "AUTO", "Auto", "NODE", "nodes", "auto ", " node", "autonode"}
+		"Node", "AUTO", "Auto", "NODE", "nodes", "auto ", " node", "autonode",
+		// text made of separators only is still text: it sanitises to dashes
+		"/", " ", ":", "--", ": /", "-/-"}
 	for i := 0; i < n; i++ {
 		var ss []string
 		for k := g.Int(4); k > 0; k-- {
